@@ -9,7 +9,7 @@
     ([unfixed] = before all three, [all_fixed] = /repo now); theorems quantify over [fx] where they hold for every setting,
     name the switch they need otherwise, and the [_refuted] witnesses are stated for [unfixed].  A scaling factor is [FPow q] = 10^q or [FZero] = 0.0. *)
 From Coq Require Import String List Bool ZArith QArith Permutation Relations.
-From LC Require Import UnitsDefs UnitsSpec UnitsProofs.
+From LC Require Import UnitsDefs UnitsSpec UnitsProofs UnitsFuelProofs.
 From LCGen Require Import UnitTables PrefixTable.
 Import ListNotations.
 Local Open Scope string_scope.
@@ -385,6 +385,47 @@ Example C08_fuel_nonvacuous :
   dim 50 w_mm 0 "mm_sq" "metre" == 2 # 1.
 Proof. exact UnitsProofs.fuel_nonvacuous. Qed.
 Print Assumptions C08_fuel_nonvacuous.
+
+(** The same for the validator's and the analyser's own reducers (UnitsFuelProofs.v). *)
+Theorem C08_fuel_monotone_val_ana : forall w f f' mi n1 n2, (f <= f')%nat ->
+  (val_equiv f w mi n1 n2 <> OutOfFuel -> val_equiv f' w mi n1 n2 = val_equiv f w mi n1 n2) /\
+  (val_scale f w mi n1 <> OutOfFuel -> val_scale f' w mi n1 = val_scale f w mi n1) /\
+  (ana_map f w mi n1 <> OutOfFuel -> ana_map f' w mi n1 = ana_map f w mi n1) /\
+  (ana_scale f w mi n1 <> OutOfFuel -> ana_scale f' w mi n1 = ana_scale f w mi n1) /\
+  (forall b, ana_equiv f w mi n1 n2 = Ok b -> ana_equiv f' w mi n1 n2 = Ok b).
+Proof.
+  intros w f f' mi n1 n2 Hle. split; [|split; [|split; [|split]]].
+  - exact (UnitsFuelProofs.val_equiv_mono w f f' mi n1 n2 Hle).
+  - exact (UnitsFuelProofs.val_scale_mono w f f' mi n1 Hle).
+  - exact (UnitsFuelProofs.ana_map_mono w f f' mi n1 Hle).
+  - exact (UnitsFuelProofs.ana_scale_mono w f f' mi n1 Hle).
+  - intros b. exact (UnitsFuelProofs.ana_equiv_mono w f f' mi n1 n2 b Hle).
+Qed.
+Print Assumptions C08_fuel_monotone_val_ana.
+
+Theorem C08_fuel_independent_val_ana : forall w f, acyclic w -> (world_size w < f)%nat ->
+  (forall mi n1 n2, val_equiv f w mi n1 n2 = val_equiv (fuel_for w) w mi n1 n2 /\ val_equiv f w mi n1 n2 <> OutOfFuel) /\
+  (forall mi n, val_scale f w mi n = val_scale (fuel_for w) w mi n) /\
+  (forall mi n, ana_map f w mi n = ana_map (fuel_for w) w mi n /\ ana_scale f w mi n = ana_scale (fuel_for w) w mi n) /\
+  (forall mi n1 n2, ana_equiv f w mi n1 n2 = ana_equiv (fuel_for w) w mi n1 n2 /\ ana_equiv f w mi n1 n2 <> OutOfFuel).
+Proof. exact UnitsFuelProofs.fuel_independent_val_ana. Qed.
+Print Assumptions C08_fuel_independent_val_ana.
+
+(** The agreement of the three scale formulas inside [agree_cond], at every fuel from the one at which [agree_cond] holds. *)
+Theorem C08_three_agree_every_fuel : forall fx f f' w mi n, agree_cond f w mi n = true -> (f <= f')%nat ->
+  exists u v a, mult_go fx f' w mi n = Ok (Some u) /\ val_scale f' w mi n = Ok v /\ ana_scale f' w mi n = Ok a /\
+                v == u /\ a == u /\
+                mult_go fx f' w mi n = mult_go fx f w mi n /\ val_scale f' w mi n = val_scale f w mi n /\
+                ana_scale f' w mi n = ana_scale f w mi n.
+Proof. exact UnitsFuelProofs.three_agree_every_fuel. Qed.
+Print Assumptions C08_three_agree_every_fuel.
+
+Example C08_fuel_val_ana_nonvacuous :
+  acyclic w_mm /\ (world_size w_mm < 40)%nat /\ agree_cond 5 w_mm 0 "mm" = true /\
+  val_equiv 40 w_mm 0 "mm2" "m2" = Ok (true, -6 # 1) /\ ana_scale 40 w_mm 0 "mm_sq" = Ok (-6 # 1) /\
+  ana_equiv 40 w_mm 0 "mm" "mm" = Ok true.
+Proof. exact UnitsFuelProofs.fuel_val_ana_nonvacuous. Qed.
+Print Assumptions C08_fuel_val_ana_nonvacuous.
 
 (** ** non-vacuity of the hypotheses used above *)
 Example C08_nonvacuous :
